@@ -647,7 +647,7 @@ def definitely_written(t) -> frozenset:
         k = n[0]
         if k == "ev":
             e = n[1]
-            if e.kind in ("write", "bump", "assign"):
+            if e.kind in ("write", "bump", "assign", "ensure"):
                 return frozenset([e.cell]), True
             return frozenset(), True
         if k == "seq":
@@ -734,6 +734,8 @@ class _Builder:
 
     # -- helpers
     def ev(self, kind, cell, node, **info):
+        if cell in getattr(self, "_fresh", ()) and kind in ("assign", "write"):
+            info["fresh_guard"] = True     # only reached when the attribute is absent
         return ("ev", Event(kind, cell, node, self.f, info))
 
     def cellname(self, attr):
@@ -908,11 +910,28 @@ class _Builder:
             if tv is False:
                 return seq([c, self.block(st.orelse)])
             saved = (dict(self.aliases), dict(self.objalias), dict(self.env))
+            # a branch taken only when `self` has no attribute k yet
+            fresh_cell, fresh_in_body = None, True
+            t0 = st.test
+            neg0 = isinstance(t0, ast.UnaryOp) and isinstance(t0.op, ast.Not)
+            h0 = t0.operand if neg0 else t0
+            if isinstance(h0, ast.Call) and isinstance(h0.func, ast.Name) and \
+                    h0.func.id == "hasattr" and len(h0.args) == 2 and \
+                    self.is_self(h0.args[0]) and isinstance(h0.args[1], ast.Constant) \
+                    and isinstance(h0.args[1].value, str):
+                fresh_cell, fresh_in_body = self.cellname(h0.args[1].value), neg0
+            prev_fresh = getattr(self, "_fresh", frozenset())
+            if fresh_cell and fresh_in_body:
+                self._fresh = prev_fresh | {fresh_cell}
             b1 = self.block(st.body)
+            self._fresh = prev_fresh
             a1 = (self.aliases, self.objalias, self.env)
             self.aliases, self.objalias = dict(saved[0]), dict(saved[1])
             self.env = dict(saved[2])
+            if fresh_cell and not fresh_in_body:
+                self._fresh = prev_fresh | {fresh_cell}
             b2 = self.block(st.orelse)
+            self._fresh = prev_fresh
             # may-alias join; constants must agree on both branches
             t1, t2 = self._terminates(b1), self._terminates(b2)
             if t2 and not t1:
@@ -926,7 +945,20 @@ class _Builder:
                             if k in a1[2] and a1[2][k] is v or
                             (k in a1[2] and a1[2][k] == v and
                              type(a1[2][k]) is type(v))}
-            return seq([c, alt([b1, b2])])
+            out = [c, alt([b1, b2])]
+            # `if not hasattr(self, "k"): self.k = ...` (or the else-form): after
+            # the statement the attribute exists on every path
+            t_ = st.test
+            neg = isinstance(t_, ast.UnaryOp) and isinstance(t_.op, ast.Not)
+            h = t_.operand if neg else t_
+            if isinstance(h, ast.Call) and isinstance(h.func, ast.Name) and \
+                    h.func.id == "hasattr" and len(h.args) == 2 and \
+                    self.is_self(h.args[0]) and isinstance(h.args[1], ast.Constant) and \
+                    isinstance(h.args[1].value, str):
+                cell = self.cellname(h.args[1].value)
+                if cell in definitely_written(b1 if neg else b2):
+                    out.append(self.ev("ensure", cell, st))
+            return seq(out)
         if isinstance(st, (ast.For, ast.AsyncFor)):
             it = self.expr(st.iter)
             self.bind_loop_target(st.target, st.iter)
